@@ -154,6 +154,31 @@ FetchWalk(b, F) ==
           ELSE IF dn # {} /\ MaxOf(Rd) \in dn THEN "failed" ELSE "notexist"
 FetchF(b, F) == Idle /\ reply' = [op |-> "fetch", res |-> FetchWalk(b, F), list |-> <<>>]
                 /\ UNCHANGED <<cfgvars, has, call, outcome, done, nSuccess, ret, acked, removedOk, copiesAtAck, pendingBg>>
+(* Stat / enumerate under replica loss: the read replicas in F fail the call.  The property asks for the
+   reference map's answer from every successful call, so an answer given while replicas are lost is an error or
+   the complete list.  The code fails the call as soon as one read replica fails.  Deviation
+   "StatSkipsFailedReplica" (a seeded change, kept as a sensitivity run): the answers of the surviving replicas
+   are reported as a success. *)
+VisibleWithout(F) == UNION {has[i] : i \in Rd \ F}
+StatUnderLoss(S, F) ==
+  IF F \cap Rd = {} THEN StatReply(S)
+  ELSE IF "StatSkipsFailedReplica" \in Deviations /\ Rd \ F # {}
+       THEN [op |-> "stat", res |-> "ok", list |-> SortedSeq(S \cap VisibleWithout(F))]
+       ELSE [op |-> "stat", res |-> "failed", list |-> <<>>]
+EnumUnderLoss(a, l, F) ==
+  IF F \cap Rd = {} THEN EnumReply(a, l)
+  ELSE IF "StatSkipsFailedReplica" \in Deviations /\ Rd \ F # {}
+       THEN [op |-> "enum", res |-> "ok", list |-> Prefix(SortedSeq({b \in VisibleWithout(F) : b > a}), l)]
+       ELSE [op |-> "enum", res |-> "failed", list |-> <<>>]
+(* what the property accepts as the answer (res, list) of a stat of S / an enumeration while F is lost *)
+StatAnswerOK(S, F, res, list) == IF res = "ok" THEN list = StatReply(S).list ELSE F \cap Rd # {} /\ res = "failed"
+EnumAnswerOK(a, l, F, res, list) == IF res = "ok" THEN list = EnumReply(a, l).list ELSE F \cap Rd # {} /\ res = "failed"
+(* StatF / EnumF change nothing but `reply` (which is outside the VIEW): they are steps of the trace specification
+   only; the model check judges them through the state predicate ListsSurviveLoss. *)
+StatF(S, F) == Idle /\ reply' = StatUnderLoss(S, F)
+               /\ UNCHANGED <<cfgvars, has, call, outcome, done, nSuccess, ret, acked, removedOk, copiesAtAck, pendingBg>>
+EnumF(a, l, F) == Idle /\ reply' = EnumUnderLoss(a, l, F)
+                  /\ UNCHANGED <<cfgvars, has, call, outcome, done, nSuccess, ret, acked, removedOk, copiesAtAck, pendingBg>>
 Fetch(b) == Idle /\ reply' = FetchReply(b)
             /\ UNCHANGED <<cfgvars, has, call, outcome, done, nSuccess, ret, acked, removedOk, copiesAtAck, pendingBg>>
 Stat(S) == Idle /\ reply' = StatReply(S)
@@ -182,6 +207,11 @@ ReadsSurvive == \A b \in Blobs : (\E i \in Rd : b \in has[i]) <=> FetchReply(b).
 ReadsSurviveLoss == \A b \in Blobs : \A F \in SUBSET Rd :
                       /\ ((\E i \in Rd \ F : b \in has[i]) <=> FetchWalk(b, F) = "ok")
                       /\ (F = {} => FetchWalk(b, F) = FetchReply(b).res)
+(* stat and enumerate answer as the reference map or fail, whatever subset of the read replicas is lost *)
+ListsSurviveLoss == \A F \in SUBSET Rd :
+                      /\ \A S \in SUBSET Blobs : LET r == StatUnderLoss(S, F) IN StatAnswerOK(S, F, r.res, r.list)
+                      /\ \A a \in 0..(2 * Cardinality(Blobs) + 1), l \in 1..3 :
+                            LET r == EnumUnderLoss(a, l, F) IN EnumAnswerOK(a, l, F, r.res, r.list)
 ExactlyOnce == \A S \in SUBSET Blobs :
                  LET l == StatReply(S).list IN Cardinality({l[k] : k \in 1..Len(l)}) = Len(l)
 (* beyond C12 (C01/C13/C14): an acknowledged removal stays in force until the blob is received again *)
